@@ -30,7 +30,7 @@ ARG_SHAPES = [
     ("bool", BOOL(True)), ("bool", BOOL(False)), ("bool", V("b")),
     ("str", S("s")), ("str", S("with space")), ("str", V("s")),
     # strings that look like other literals / names
-    ("str", S("caf\u00e9 \u03c0/2")), ("str", S("a\\b\\n")), ("str", S("a#b")), ("str", S("True")), ("str", S("1.5")), ("str", S("n")), ("str", S("x=1, y")),
+    ("str", S("caf\u00e9 \u03c0/2")), ("str", S("a\\b\\n")), ("str", S("a#b")), ("str", S("True")), ("str", S("1.5")), ("str", S("n")), ("str", S("x=1, y")), ("str", S("a\x0bb\x0cc\x1dd\x85e\u2028f\u2029g")),
     ("array", V("A")), ("array", V("B")), ("array", V("U")), ("array-1x1", V("W")), ("array-1x1", IDX("W", N("0"))), ("array-p-name", V("p1")), ("array-p-name", IDX("p1", N("1"))), ("array-with-parameters", V("T")), ("array-with-parameters", IDX("T", N("3"))),
     ("param", P("a")), ("param", U("-", P("a"))), ("param", B("*", N("2"), P("a"))), ("param", B("+", P("a"), P("b"))),
     ("param", B("**", P("a"), N("2"))), ("param", B("/", N("1"), P("a"))), ("param", B("/", P("a"), P("b"))),
